@@ -2,6 +2,7 @@
 Every generated program is run by the interpreter, as a single-file compiled executable (-c) and as a
 multi-file one (-C); all three must equal the oracle. The synthesiser's C++ emission is not modelled."""
 import pipeline as P
+import volume as V
 
 LEVEL = "translation_validation"
 
@@ -20,5 +21,7 @@ def configs(p):
 def main(pid, tier, seed, replay):
     return P.standard_check(pid, LEVEL, tier, seed, configs, 10, 300, features, proof_pid="C02", rule=
         "generated programs (all index signatures over signed/unsigned/symbol columns, aggregates, records, sentinel values) x "
-        "{interpreter, -c, -C}; non-trivial = distinct program with a non-empty output", proof=True, workers=16,
+        "{interpreter, -c, -C}; non-trivial = distinct program with a non-empty output; plus the volume family (10^4..10^5 tuples, python expectation) "
+        "compiled and interpreted", proof=True, workers=16,
+        post=V.post_step("c02vol", 2, 20, [("interpreter -j2", dict(jobs=2), False), ("compiled -j4", dict(jobs=4, compiled=True), False)]),
         extra_tb=["g++ 12 and the OpenMP runtime compile and run the synthesised C++"])
